@@ -58,12 +58,13 @@ func NewParams(schema *Schema, su SimpleURL, resType string) (*Params, error) {
 	}
 
 	// Build params.Include
-	params.Include = make([][]Rel, len(incs))
+	params.Include = make([][]Rel, 0, len(incs))
 
 	for i := range incs {
 		words := strings.Split(incs[i], ".")
 
-		params.Include[i] = make([]Rel, len(words))
+		path := make([]Rel, len(words))
+		valid := true
 
 		var incRel Rel
 
@@ -73,12 +74,23 @@ func NewParams(schema *Schema, su SimpleURL, resType string) (*Params, error) {
 				incRel = typ.Rels[words[0]]
 			}
 
-			params.Include[i][w] = incRel
+			// A path that has not been checked above can still
+			// contain a relationship that does not exist.
+			if incRel.FromName == "" {
+				valid = false
+				break
+			}
+
+			path[w] = incRel
 
 			if w < len(words)-1 {
 				typ := schema.GetType(incRel.ToType)
 				incRel = typ.Rels[words[w+1]]
 			}
+		}
+
+		if valid {
+			params.Include = append(params.Include, path)
 		}
 	}
 
